@@ -66,6 +66,11 @@ class Library:
         if isinstance(blocks, Block):
             blocks = [blocks]
 
+        # Check all blocks first, such that either all or none of them are removed.
+        remaining = list(self._blocks)
+        for block in blocks:
+            del remaining[self._index_of(block, remaining)]
+
         for block in blocks:
             del self._blocks[self._index_of(block)]
             if isinstance(block, Entry):
